@@ -226,6 +226,9 @@ def r12_13(ctx) -> None:
                     if not cfg.controlled_by(n, t, 't'):
                         continue
                     for e in resolve_local(f, t.stmt.test):
+                        while isinstance(e, ast.Call) and \
+                                call_name(e) == 'bool' and len(e.args) == 1:
+                            e = e.args[0]          # bool(x) tests x
                         if isinstance(e, ast.BinOp) and \
                                 isinstance(e.op, ast.Sub) and \
                                 isinstance(e.left, ast.Attribute) and \
